@@ -20,7 +20,7 @@ ID = "C13"
 LEAN_MODULES = ["Barril.Props.C13"]
 DRIVERS = ["drv_heap"]
 DRIVER_EXE = "drv_heap"
-RULE = ("seeded histories (quick 500 x ~45 steps, thorough 9000 x ~50) over a pool that starts with objects of "
+RULE = ("seeded histories (quick 500 x ~45 steps, thorough 7000 x ~50) over a pool that starts with objects of "
         "every class and container kind (Scalar; Array/FixedArray over list, tuple, ndarray; FractionScalar; "
         "empty, unknown-caption and - through * and / - derived quantities; two Arrays over one list) and grows "
         "with every result: + - * / // between pool members and with plain numbers on either side, == and <, "
@@ -373,10 +373,24 @@ class Gen:
         return False
 
     def no_floor_tie(self, op):
-        """`//` whose true quotient is (nearly) an integer is decided by float rounding: use `/` instead"""
+        """`//` whose true quotient is (nearly) an integer is decided by float rounding: use `/` instead; a sum or
+        difference that cancels (result below 1e-6 of an operand) is float noise on the real side and an exact
+        zero in the model, and everything computed from it would be incomparable: use `*` instead"""
+        import numpy
+
+        if op["f"] in ("add", "sub"):
+            try:
+                a, b = _operand(self.pool, op["a"]), _operand(self.pool, op["b"])
+                with numpy.errstate(all="raise"):
+                    r = BINOPS[op["f"]](a, b)
+                ref = _floats(a) if not isinstance(a, float) else _floats(b)
+                if any(x != 0 and abs(y) <= 1e-6 * abs(x) for x, y in zip(ref, _floats(r))):
+                    return dict(op, f="mul")
+            except Exception:
+                pass
+            return op
         if op["f"] != "floordiv":
             return op
-        import numpy
 
         try:
             with numpy.errstate(all="raise"):
@@ -586,7 +600,8 @@ class Gen:
             tops.append(a)
         if rng.random() < 0.5:
             tops.reverse()
-        self.push(dict(k="arith", f=rng.choice(["add", "sub", "mul", "div"]), a=dict(i=tops[0]), b=dict(i=tops[1])))
+        self.push(self.no_floor_tie(dict(k="arith", f=rng.choice(["add", "sub", "mul", "div"]), a=dict(i=tops[0]),
+                                         b=dict(i=tops[1]))))
 
     def history(self, steps):
         from barril.units.unit_database import UnitDatabase
@@ -674,7 +689,7 @@ def cases(ctx):
     if ctx.tier == "quick":
         yield from _gen(ctx, "q", 500, 36)
     else:
-        yield from _gen(ctx, "t", 9000, 42)
+        yield from _gen(ctx, "t", 7000, 42)
 
 
 def model_line(c):
